@@ -71,11 +71,13 @@ def run(tier, replay=None):
         libs += [("verif_sub%d" % k, 4, subs[k]) for k in rng.sample(range(len(subs)), 2)]
         libs += [("verif_cube", 4, bases.USER_STYLE["verif_cube"])]
         libs += [("verif_sq", 5, [["x", "a"], ["square"], ["+"]])]       # smallest library with a sum of two even powers of different parameters
+        libs += [("verif_mulpow", 7, [["x", "a"], [], ["*", "pow"]])]    # smallest library with three-parameter functions in which a middle parameter is absorbed
     else:
         libs = [(k, n, None) for k in bases.SHIPPED for n in (1, 2, 3, 4)]
         libs += [("core_maths", 5, None), ("core_maths", 6, None), ("ext_maths", 5, None), ("base_e_maths", 5, None), ("osc_maths", 5, None)]
         libs += [("verif_sub%d" % k, n, subs[k]) for k in rng.sample(range(len(subs)), 16) for n in (4, 5)]
         libs += [(k, n, b) for k, b in user for n in (3, 4)]
+        libs += [("verif_sq", 5, [["x", "a"], ["square"], ["+"]]), ("verif_mulpow", 7, [["x", "a"], [], ["*", "pow"]]), ("verif_addmul", 7, [["x", "a"], [], ["+", "*"]])]
     tested = False
     for name, n, basis in libs:
         L, _ = common.gen_library(r, s, name, n, basis=basis)
